@@ -573,12 +573,36 @@ package secp256k1
 //@ func (*Point).MultiScalarMult
 //@   props C16
 //@   timeout 60
-//@   bounded len(scalars) <= 3: list lengths 0..3 are verified (every other aspect is for all inputs); longer lists are not covered by this contract
+//@   bounded len(scalars) <= 3: list lengths 0..3 are verified (all scalars and valid points; list entries distinct objects, the receiver may be one of the points); longer lists are not covered by this contract
 //@   requires len(scalars) <= 3 && len(points) <= 3
 //@   split len(scalars) in 0..3
 //@   split len(points) in 0..3
 //@   panics len(scalars) != len(points)
 //@   panics len(scalars) == len(points) && len(scalars) >= 1 && !points[0].isValid
+//@   panics len(scalars) == len(points) && len(scalars) >= 2 && !points[1].isValid
+//@   panics len(scalars) == len(points) && len(scalars) >= 3 && !points[2].isValid
+//@   cut ladder2@return if len(scalars) == 2 && len(points) == 2: old(points[0].isValid) && old(points[1].isValid) && e4(v.x.m) < P && e4(v.y.m) < P && e4(v.z.m) < P && v.isValid && onc(v) && abs(v) == padd(smul(fn(os2ip(sBytes[0])), abs(pTbls[0][0])), smul(fn(os2ip(sBytes[1])), abs(pTbls[1][0]))) && os2ip(sBytes[0]) == lift(old(val(scalars[0]))) && os2ip(sBytes[1]) == lift(old(val(scalars[1]))) && abs(pTbls[0][0]) == old(abs(points[0])) && abs(pTbls[1][0]) == old(abs(points[1]))
+//@   cut ladder3@return if len(scalars) == 3 && len(points) == 3: old(points[0].isValid) && old(points[1].isValid) && old(points[2].isValid) && e4(v.x.m) < P && e4(v.y.m) < P && e4(v.z.m) < P && v.isValid && onc(v) && abs(v) == padd(padd(smul(fn(os2ip(sBytes[0])), abs(pTbls[0][0])), smul(fn(os2ip(sBytes[1])), abs(pTbls[1][0]))), smul(fn(os2ip(sBytes[2])), abs(pTbls[2][0]))) && os2ip(sBytes[0]) == lift(old(val(scalars[0]))) && os2ip(sBytes[1]) == lift(old(val(scalars[1]))) && os2ip(sBytes[2]) == lift(old(val(scalars[2]))) && abs(pTbls[0][0]) == old(abs(points[0])) && abs(pTbls[1][0]) == old(abs(points[1])) && abs(pTbls[2][0]) == old(abs(points[2]))
+//@   ensures v.isValid && result == v
+//@   ensures len(scalars) == 0 ==> abs(v) == O
+//@   ensures len(scalars) == 1 ==> abs(v) == smul(old(val(scalars[0])), old(abs(points[0])))
+//@   ensures len(scalars) == 2 ==> abs(v) == padd(smul(old(val(scalars[0])), old(abs(points[0]))), smul(old(val(scalars[1])), old(abs(points[1]))))
+//@   ensures len(scalars) == 3 ==> abs(v) == padd(padd(smul(old(val(scalars[0])), old(abs(points[0]))), smul(old(val(scalars[1])), old(abs(points[1])))), smul(old(val(scalars[2])), old(abs(points[2]))))
+//@   modifies *v
+//@
+//@ func (*Point).MultiScalarMultVartime
+//@   props C16
+//@   timeout 60
+//@   bounded len(scalars) <= 3: list lengths 0..3 are verified (all scalars and valid points; list entries distinct objects, the receiver may be one of the points); longer lists are not covered by this contract
+//@   requires len(scalars) <= 3 && len(points) <= 3
+//@   split len(scalars) in 0..3
+//@   split len(points) in 0..3
+//@   panics len(scalars) != len(points)
+//@   panics len(scalars) == len(points) && len(scalars) >= 1 && !points[0].isValid
+//@   panics len(scalars) == len(points) && len(scalars) >= 2 && !points[1].isValid
+//@   panics len(scalars) == len(points) && len(scalars) >= 3 && !points[2].isValid
+//@   cut ladder2@return if len(scalars) == 2 && len(points) == 2: old(points[0].isValid) && old(points[1].isValid) && e4(v.x.m) < P && e4(v.y.m) < P && e4(v.z.m) < P && v.isValid && onc(v) && abs(v) == padd(smul(fn(os2ip(sBytes[0])), abs(pTbls[0][0])), smul(fn(os2ip(sBytes[1])), abs(pTbls[1][0]))) && os2ip(sBytes[0]) == lift(old(val(scalars[0]))) && os2ip(sBytes[1]) == lift(old(val(scalars[1]))) && abs(pTbls[0][0]) == old(abs(points[0])) && abs(pTbls[1][0]) == old(abs(points[1]))
+//@   cut ladder3@return if len(scalars) == 3 && len(points) == 3: old(points[0].isValid) && old(points[1].isValid) && old(points[2].isValid) && e4(v.x.m) < P && e4(v.y.m) < P && e4(v.z.m) < P && v.isValid && onc(v) && abs(v) == padd(padd(smul(fn(os2ip(sBytes[0])), abs(pTbls[0][0])), smul(fn(os2ip(sBytes[1])), abs(pTbls[1][0]))), smul(fn(os2ip(sBytes[2])), abs(pTbls[2][0]))) && os2ip(sBytes[0]) == lift(old(val(scalars[0]))) && os2ip(sBytes[1]) == lift(old(val(scalars[1]))) && os2ip(sBytes[2]) == lift(old(val(scalars[2]))) && abs(pTbls[0][0]) == old(abs(points[0])) && abs(pTbls[1][0]) == old(abs(points[1])) && abs(pTbls[2][0]) == old(abs(points[2]))
 //@   ensures v.isValid && result == v
 //@   ensures len(scalars) == 0 ==> abs(v) == O
 //@   ensures len(scalars) == 1 ==> abs(v) == smul(old(val(scalars[0])), old(abs(points[0])))
